@@ -22,6 +22,7 @@ import (
 	"strconv"
 	"strings"
 	"sync"
+	"unicode"
 	"unicode/utf8"
 
 	"github.com/goccy/go-yaml"
@@ -707,6 +708,12 @@ func yamlUnprintable(s string) bool {
 		switch {
 		case r == '\t' || r == '\n':
 		case r < 0x20 || r == 0x7F || r == 0x85 || r == 0x2028 || r == 0x2029 || r == 0xFFFE || r == 0xFFFF:
+			return true
+		case r >= 0x80 && r != utf8.RuneError && !unicode.IsPrint(r):
+			// No-break space, byte order mark, private use and other
+			// unassigned or invisible code points: a quoted scalar emitted
+			// by the YAML library spells these as the text \uXXXX, which
+			// does not decode back.
 			return true
 		case r == utf8.RuneError:
 			if _, size := utf8.DecodeRuneInString(s[i:]); size == 1 {
